@@ -80,8 +80,12 @@ def families(tier, seed):
     out.append(dict(name='syntax.conj / syntax.disj with constant operands', run=pn.h_conj_disj(), label='bounded'))
     for fml in pn.E2E_MIXED:
         out.append(dict(name=f'translate mixed past/future (until=True) L={L} {fml}', run=pn.h_translate_mixed(fml, min(L, 6)), label='bounded'))
+    for fml in pn.E2E_NEXT:
+        out.append(dict(name=f'translate e2e (next-state operands) L={L} {fml}', run=pn.h_translate_e2e(fml, L), label='bounded'))
     for fml in pn.E2E_UNTIL:
         out.append(dict(name=f'translate e2e (until=True) L={L} {fml}', run=pn.h_translate_e2e(fml, L, until=True), label='bounded'))
+    from contracts import optdiff as _od
+    out.append(dict(name='same results with assert statements stripped (python -O), section C15', run=_od.family('C15'), label='bounded'))
     return out
 
 
